@@ -21,6 +21,13 @@ def _frac_of_float(x):
         raise Undecided("non-finite float %r entered the symbolic domain" % x)
     f = Fraction(x)
     if f.denominator > MAXDEN or abs(f.numerator) > (1 << 62):
+        # a short decimal literal of the source text (1e-12, 0.1, 1.5e-8): read as the decimal the programmer
+        # wrote; anything with more than 6 significant digits (a rounded irrational, a computed value) is refused
+        from decimal import Decimal
+
+        d = Decimal(repr(x))
+        if len(d.as_tuple().digits) <= 6:
+            return Fraction(d)
         raise Undecided("inexact float %r entered the symbolic domain" % x)
     return f
 
